@@ -17,11 +17,21 @@ Oracle: S1 satisfies every FOREIGN KEY / NOT NULL constraint by construction, so
       only reference an existing row at the moment of each statement") -- a verdict that does not depend on SQLite's
       own FK enforcement.
 
-Worlds: U1 (nullable and NOT NULL foreign key; cascade save-update and all), U3 tree (re-parenting, deleting a parent
-and re-homing its children in the same flush), U2 many-to-many, U4 joined inheritance (base row first, sub-table row
+Worlds: U1 (nullable and NOT NULL foreign key; bidirectional, collection-only and many-to-one-only; cascade save-update
+and all), U3 tree (bidirectional and each single direction; (re-parenting, deleting a parent
+and re-homing its children in the same flush)), U2 many-to-many, U4 joined inheritance (base row first, sub-table row
 first on delete) with a company link, U8 two-table cycle with post_update.
 
-Mutations caught: see MUTATIONS in the report.
+Mutations caught (VF_REPO=/tmp/wt-orm2):
+  * dependency._OneToManyDP.per_property_dependencies: edge (child_deletes, parent_deletes) dropped -> flush raises / stream check fails on
+    {p1 c1(p1)} -> {} (collection-only U1 with class names Aparent/Zchild; with the other name order the tie-break hides it)
+  * dependency._OneToManyDP.per_state_dependencies: edges (after_save, child_action), (save_parent, child_action) dropped -> self-referential
+    child written before its parent / wrong rows (collection-only U3)
+  * dependency._ManyToOneDP.per_property_dependencies (post_update): edge (child_saves, after_save) dropped -> post_update UPDATE before the
+    target INSERT: IntegrityError + stream check (U8)
+  * persistence._delete_obj: joined-inheritance tables deleted base-first -> IntegrityError + stream check (U4)
+  Not caught: dropping (child_saves, after_save) of a plain many-to-one and the before_delete edges of many-to-many -- the sort's
+  deterministic tie-break by mapper name still yields a valid order in these worlds (equivalent here).
 """
 import itertools
 
@@ -303,6 +313,12 @@ def spaces(tier):
         dict(world=("U3", SU), names=["n1", "n2", "n3"], max0=None),
         dict(world=("U3", SU), names=["n1", "n2", "n3", "n4"], max0=2 if tier == "quick" else None),
         dict(world=("U2", SU), names=["i1", "i2", "t1", "t2"], max0=None),
+        dict(world=("U1", SU, True, False, ow.M2O_DEFAULT, "o2m", ("Aparent", "Zchild")), names=["p1", "p2", "c1", "c2"], max0=None),
+        dict(world=("U1", SU, True, False, ow.M2O_DEFAULT, "o2m", ("Zparent", "Achild")), names=["p1", "p2", "c1", "c2"], max0=None),
+        dict(world=("U1", SU, True, False, ow.M2O_DEFAULT, "m2o", ("Aparent", "Zchild")), names=["p1", "p2", "c1", "c2"], max0=None),
+        dict(world=("U1", SU, True, False, ow.M2O_DEFAULT, "m2o", ("Zparent", "Achild")), names=["p1", "p2", "c1", "c2"], max0=None),
+        dict(world=("U3", SU, "o2m"), names=["n1", "n2", "n3"], max0=None),
+        dict(world=("U3", SU, "m2o"), names=["n1", "n2", "n3"], max0=None),
         dict(world=("U4", SU), names=["co1", "pe1", "en2", "ma3"], max0=None),
         dict(world=("U8", SU), names=["h1", "h2", "b1", "b2"], max0=2 if tier == "quick" else None),
     ]
